@@ -192,9 +192,9 @@ func c43(sum *lib.Summary) {
 	c.json = &c41run{sum: &lib.Summary{}, rng: rng, distinct: map[string]bool{}}
 	c.ccfm = &c42run{sum: &lib.Summary{}, rng: rng, distinct: map[string]bool{}}
 	c.json.cw = &lib.CaseWriter{Dir: *dir, Prefix: "cases_C43_json", Header: "From Coq Require Import String.\nFrom CV Require Import C41.Cases.",
-		ElemType: "jcase", CheckFn: "check_case", PerFile: 150}
+		ElemType: "jcase", CheckFn: "check_case", PerFile: 80}
 	c.ccfm.cw = &lib.CaseWriter{Dir: *dir, Prefix: "cases_C43_ccf", Header: "From Coq Require Import String.\nFrom CV Require Import C42.Cases.",
-		ElemType: "ccase", CheckFn: "check_ccase", PerFile: 300}
+		ElemType: "ccase", CheckFn: "check_ccase", PerFile: 200}
 	sum.Rule = "values with complete static types from the recursive generator and a corpus (boundary numbers of all numeric kinds, recursive types, capabilities, type values): " +
 		"each value goes through the real JSON-Cadence codec and the real CCF codec (default mode); both must round-trip it and the two decoded values must be equal after erasure " +
 		"(independent Go erasure; dictionary entries as a set; embedded types by canonical definition) and have equal type IDs wherever the JSON-decoded value has a type; " +
